@@ -63,6 +63,7 @@ class FunctionNode(ConfigDict):
 
         # (not "other._func" guarded by AttributeError: a plain mapping answers attribute access with its children, also one called "_func")
         new_func = isinstance(other, FunctionNode) and self._func != other._func
+        before = (self._func, self._safe, list(self.ayns.named_children()))
 
         if new_func:
             if not other.ayns.has_priority_over(self, if_equal=True):
@@ -85,13 +86,14 @@ class FunctionNode(ConfigDict):
         finally:
             self.__dict__.pop('_dropped_paths', None)
 
-        if ret is other and type(self) is type(other):
-            # "other" (another target, or the same one with arguments that replace the old ones) has taken the place of this node, which
-            # has been emptied for it above. The node can stand at other places too
-            # (yaml alias: one node, evaluated once): it stays the node of all of them, with everything "other" brings
-            for name, child in list(other.ayns.named_children()):
+        if ret is not self:
+            # another node has taken the place of this one, which has been emptied (and given another target) for it above. Both can
+            # stand at other places too (yaml alias: one node, evaluated once) which this merge has not addressed: "other" stays the
+            # node of its places, and this one stays what it was at those it has left
+            self._func, self._safe = before[0], before[1]
+            self.clear()
+            for name, child in before[2]:
                 self.ayns.set_child(name, child)
-            ret = self._replace_self(other)
 
         return ret
 
